@@ -310,6 +310,13 @@ def r7_label_provenance(R) -> None:
     R.check(len(ks) >= 1, g.q, 'label-missing', 'an unknown label raises KeyError', 'unknown labels do not raise KeyError', where=g.fi.where)
 
 
+def r7b_int_contract(R) -> None:
+    """`isinstance(stop, int)` is a consumer of the position type contract (C05.R5): span-search
+    methods defined in the package must return Python ints, or label stops lose their inclusive +1."""
+    from rules import c05
+    c05.r5_position_type(R)
+
+
 def run(R) -> None:
     R.explanation = (
         'C16: every in-place store in shift/lag/lead/diff/dlog has a receiver whose reaching definitions are all fresh arrays; lag/lead/'
@@ -324,4 +331,4 @@ def run(R) -> None:
     R.rule('C16.R4', lambda: r4_helper_table(R))
     R.rule('C16.R5', lambda: r5_no_self_writes(R))
     R.rule('C16.R6', lambda: r6_nameerror(R))
-    R.rule('C16.R7', lambda: r7_label_provenance(R))
+    R.rule('C16.R7', lambda: (r7_label_provenance(R), r7b_int_contract(R)))
